@@ -158,15 +158,18 @@ def run(ctx, prop, props_files, fams, oracle_names, assumptions, level_rule, mod
                 out += extra_oracle(cand, o, o["scenarios"][0], rr)
             return any(x["what"] == what for x in out)
         small = ap
+        is_project = "dur" in ap
         try:
-            if len(reported) <= 2 and not ctx.replay:
+            if is_project and len(reported) <= 2 and not ctx.replay:
                 small = shrink(ap, still)
         except Exception:
             small = ap
         payload = {"property": prop, "kind": "failing input on the implementation", "finding": f,
                    "family": ap.get("_family"), "index": ap.get("_i"), "seed": ctx.seed,
-                   "project_text": projects.render(small), "abstract_project": small,
                    "how_to_replay": f"./check {prop} --replay <this file>"}
+        if is_project:
+            payload["project_text"] = projects.render(small)
+            payload["abstract_project"] = small
         violations.append({"replay": common.write_replay(ctx, payload)})
         if len(violations) >= 3:
             break
